@@ -2,22 +2,17 @@ package shimagent
 
 //vsym:pkg github.com/theparanoids/ysshra/agent/shimagent
 //vsym:include shim/world.go
+//vsym:include shim/peek.go || shim/peek_bb.go
 //vsym:entry H09_mode
-//vsym:model golang.org/x/crypto/ssh/agent.NewClient m09NewClient
 //vsym:replay same-harness
 //vsym:expect-cover C09.hidden C09.sign-hidden-refused C09.plain-listed C09.other-cert-listed C09.memory-cert-listed C09.hidden-removed C09.mode-off-lists-all C09.added-later-hidden C09.upstream-certificate-also-in-memory
-//vsym:bound H09_mode: construction with newShimAgent over an arbitrary upstream content of 0..2 (thorough 0..3) identities (plain key, certificate whose KeyID decodes, certificate whose KeyID does not), mode on or off; then 0..1 (thorough 0..2) operations from {another client adds a decoding certificate upstream, AddHardCert of a new certificate, AddHardCert of a certificate the underlying agent already holds, Remove of an upstream certificate, RemoveAll}; then List, Signers and Sign for every identity; every certificate window and the clock symbolic with the clock inside the window
+//vsym:bound H09_mode: construction with the exported constructor over an arbitrary upstream content of 0..2 (thorough 0..3) identities (plain key, certificate whose KeyID decodes, certificate whose KeyID does not), mode on or off; then 0..1 (thorough 0..2) operations from {another client adds a decoding certificate upstream, AddHardCert of a new certificate, AddHardCert of a certificate the underlying agent already holds, Remove of an upstream certificate, RemoveAll}; then List, Signers and Sign for every identity; every certificate window and the clock symbolic with the clock inside the window
 
 import (
+	"github.com/theparanoids/ysshra/keyid"
 	"golang.org/x/crypto/ssh"
-	"golang.org/x/crypto/ssh/agent"
 )
 
-var m09Up *mwUpstream
-
-func m09NewClient(rw interface{ Read([]byte) (int, error); Write([]byte) (int, error) }) agent.ExtendedAgent {
-	return m09Up
-}
 
 // h09Valid: a certificate with an arbitrary window that contains the (arbitrary) clock
 func h09Valid(decodes bool) *ssh.Certificate {
@@ -34,8 +29,19 @@ func H09_mode() {
 		maxUp, maxOps = 3, 2
 	}
 	mode := vChoose(2, "no-upstream-mode") == 1
+	// a decoding KeyID is a YSSHCA KeyID of any type (C05: consistent attributes)
+	{
+		t := &mwKeyIDTemplate
+		t.IsHWKey, t.IsFirefighter = vNondetBool("kid-hwkey"), vNondetBool("kid-firefighter")
+		t.IsNonce, t.IsHeadless = vNondetBool("kid-nonce"), vNondetBool("kid-headless")
+		pol := vNondetU8("kid-policy")
+		vAssume(pol <= 3)
+		t.TouchPolicy = keyid.TouchPolicy(pol)
+		vAssume(vImplies(t.IsHeadless, vAnd(vAnd(!t.IsHWKey, !t.IsFirefighter), t.TouchPolicy == keyid.NeverTouch)))
+		vAssume(vImplies(t.IsNonce, vAnd(vAnd(!t.IsFirefighter, !t.IsHeadless), t.TouchPolicy == keyid.NeverTouch)))
+	}
 	up := &mwUpstream{failAt: -1}
-	m09Up = up
+	mwCurrentUp = up
 	var upCerts []*ssh.Certificate
 	nu := vChoose(maxUp+1, "upstream")
 	havePlain := false
@@ -57,12 +63,9 @@ func H09_mode() {
 			mwUpCert(up, c, "n")
 		}
 	}
-	s, err := newShimAgent(mwUpstreamConn(up), mode)
-	vAssert(err == nil && s != nil, "C09.construction-succeeds")
-	if err != nil || s == nil {
-		return
-	}
-	s.pubKeyComp = func(x, y ssh.PublicKey) bool { return string(x.Marshal()) == string(y.Marshal()) }
+	// built by the exported constructor over the already populated upstream
+	// (what is there at start-up is cached at start-up)
+	s := mwNewServer(up, mode)
 
 	var mem []*ssh.Certificate
 	removed := map[*ssh.Certificate]bool{}
@@ -107,8 +110,7 @@ func H09_mode() {
 			e := s.Remove(c)
 			vAssert(e == nil, "C09.hidden-certificate-can-be-removed")
 			vAssert(len(up.log) > calls && !up.has(mwCertMarshal(c)), "C09.remove-reaches-the-underlying-agent")
-			_, cached := s.upstreamSSHCACertCache[hash(mwCertMarshal(c))]
-			vAssert(!cached, "C09.cache-entry-removed-with-its-certificate")
+			vAssert(!mwPeek || !mwCacheHas(s, mwCertMarshal(c)), "C09.cache-entry-removed-with-its-certificate")
 			removed[c] = true
 			if mode && mwCertDecodes(c) {
 				vReach("C09.hidden-removed")
@@ -116,7 +118,7 @@ func H09_mode() {
 		case 3:
 			e := s.RemoveAll()
 			vAssert(e == nil, "C09.removeall")
-			vAssert(len(s.upstreamSSHCACertCache) == 0 && len(s.certs) == 0 && len(up.ids) == 0, "C09.removeall-clears-everything")
+			vAssert((!mwPeek || (mwCacheLen(s) == 0 && mwMemLen(s) == 0)) && len(up.ids) == 0, "C09.removeall-clears-everything")
 			mem = nil
 			for _, c := range upCerts {
 				removed[c] = true
@@ -179,8 +181,7 @@ func H09_mode() {
 			vAssert(!inList(blob), "C09.upstream-ysshca-certificate-not-listed")
 			vAssert(!inSigners(blob), "C09.upstream-ysshca-certificate-not-a-signer")
 			vAssert(sgErr == errAgentNotFoundKey, "C09.sign-with-hidden-certificate-is-key-not-found")
-			_, cached := s.upstreamSSHCACertCache[hash(blob)]
-			vAssert(cached, "C09.hidden-certificate-is-cached-after-listing")
+			vAssert(!mwPeek || mwCacheHas(s, blob), "C09.hidden-certificate-is-cached-after-listing")
 			vReach("C09.hidden")
 			vReach("C09.sign-hidden-refused")
 			if c.KeyId == "Y" && len(upCerts) > 0 && up.ids[len(up.ids)-1].comment == "late" {
